@@ -148,6 +148,17 @@ Example null_into_float_type :
   o_call (fire c s EDelete) = Some (LDelete (Some (RModel [(ka, JNum 0)]))).
 Proof. vm_compute. repeat split. Qed.
 
+(* a stored entry that is the JSON text null (CreateEvent(nil)) is served as null, distinct from an empty
+   collection; an add at 0 treats it as empty, a remove is out of range, setting a property panics *)
+Example null_resource :
+  let c := Cfg Legacy TColl TyAny None None in
+  let s := final c empty [ECreate RNull] in
+  get_resource c s = GOk RNull /\ value_resource c s = GOk RNull /\
+  fire c s (ERemove 0) = silent true s /\
+  get_resource c (final c s [EAdd (GNum 1) 0]) = GOk (RColl [JNum 1]) /\
+  fire cfg_legacy_model (St (Some RNull) []) (EChange [(ka, Put (GNum 1))]) = silent true (St (Some RNull) []).
+Proof. vm_compute. repeat split. Qed.
+
 (* resbadger applyDelete BEFORE fix ec218ca: an entry that does not decode into Type was deleted although
    the handler returned an error (nothing published) *)
 Example resb_delete_v0_refuted :
